@@ -43,7 +43,13 @@ SK == ( <<"c">>            :> "cont"
      @@ <<"m">>            :> "list"
      @@ <<"m","k1">>       :> "leaf"
      @@ <<"m","k2">>       :> "leaf"
-     @@ <<"m","v">>        :> "leaf" )
+     @@ <<"m","v">>        :> "leaf"
+     @@ <<"c","s">>        :> "leaf"      \* derived state (config false, no config counterpart; OC shape only)
+     @@ <<"st">>           :> "cont"      \* config false container (plain shape only)
+     @@ <<"st","s">>       :> "leaf" )
+
+\* nodes that are config false without being the mirror of a configuration leaf
+DerivedState == {<<"c","s">>, <<"st">>, <<"st","s">>}
 
 KeyLeafNames == ( <<"l">> :> <<"k">> @@ <<"ol">> :> <<"k">> @@ <<"m">> :> <<"k1","k2">> )
 
